@@ -258,7 +258,7 @@ def case_fp_lemma(ctx, kind, band):
         ctx.oblige("value_is_fp32_word_times_fp32_factor", isinstance(e, SFP) and core.mkbool(z3.simplify(e.t == exp)) if isinstance(e, SFP) else False, detail={"c": c})
 
 
-def case_read_sync(ctx, xa):
+def case_read_sync(ctx, xa, floor=True):
     """nidq: digital lines first, thresholded analog lines after them, one row per sample"""
     import spikeglx
     mn, ma, dw = 0, 0, 1
@@ -272,7 +272,11 @@ def case_read_sync(ctx, xa):
     F.add("/d/x.nidq.bin", True, ns * nc * 2, content)
     sr = ctx.call("reader_open", spikeglx.Reader, FakePath("/d/x.nidq.bin"))
     thr = Fraction(6, 5)
-    out = ctx.call("read_sync", lambda: sr.read_sync(slice(0, ns), threshold=float(thr)))
+    if floor:
+        out = ctx.call("read_sync", lambda: sr.read_sync(slice(0, ns), threshold=float(thr)))
+    else:
+        # floor removal switched off (floor_percentile=False): the raw voltage is compared with the threshold
+        out = ctx.call("read_sync_no_floor", lambda: sr.read_sync(slice(0, ns), threshold=float(thr), floor_percentile=False))
     if not ctx.oblige("sync_shape_one_row_per_sample", tuple(out.shape) == (ns, 16 + xa), detail={"shape": str(out.shape)}):
         return
     k = Fraction(5.0 / 32768)
@@ -293,15 +297,14 @@ def case_read_sync(ctx, xa):
             for s in range(m_):
                 hi = (col[s] - p10) >= core._as_real(Fraction(float(thr)))
                 ctx.oblige(name, core.eq(res[s, 16 + j], core.ite(hi, 1, 0)), detail={"s": first + s, "j": j, "got": res[s, 16 + j], "slice": [first, last]})
+    if not floor:
+        analog_oracle(out, 0, ns, "floor_removal_switched_off_thresholds_the_raw_voltage", floor=False)
+        return
     analog_oracle(out, 0, ns, "analog_line_thresholded_after_floor_removal")
     # a later call on another stretch of the same reader: its floor is that stretch's own (nothing carried over from earlier calls)
     out2 = ctx.call("read_sync_again", lambda: sr.read_sync(slice(1, ns), threshold=float(thr)))
     if ctx.oblige("second_call_shape", tuple(out2.shape) == (ns - 1, 16 + xa), detail={"shape": str(out2.shape)}):
         analog_oracle(out2, 1, ns, "later_call_uses_the_floor_of_its_own_stretch")
-    # floor removal switched off (floor_percentile=False): the raw voltage is compared with the threshold
-    out3 = ctx.call("read_sync_no_floor", lambda: sr.read_sync(slice(0, ns), threshold=float(thr), floor_percentile=False))
-    if ctx.oblige("no_floor_call_shape", tuple(out3.shape) == (ns, 16 + xa), detail={"shape": str(out3.shape)}):
-        analog_oracle(out3, 0, ns, "floor_removal_switched_off_thresholds_the_raw_voltage", floor=False)
 
 
 def cases(tier):
@@ -318,6 +321,7 @@ def cases(tier):
         cs.append(Case(f"fp_lemma_{kind}_{band}", "case_fp_lemma", {"kind": kind, "band": band}))
     for xa in (1, 2):
         cs.append(Case(f"read_sync_xa{xa}", "case_read_sync", {"xa": xa}))
+    cs.append(Case("read_sync_xa1_floor_off", "case_read_sync", {"xa": 1, "floor": False}))
     return cs
 
 
@@ -456,3 +460,4 @@ not_reproduced()
 
 # level text addendum (cases added after the seeded-change rounds)
 LEVEL_TEXT = LEVEL_TEXT + ' Also: boolean masks and index arrays as channel selectors, read_samples for every pair of bounds (empty ones included), two read_sync calls on different stretches of one reader.'
+LEVEL_TEXT = LEVEL_TEXT + ' Round 6: open-ended read_samples bounds (None), runs of consecutive negative / positive sample indices, read_sync with the floor removal switched off.'
